@@ -1,3 +1,136 @@
-import EpsicProofs.Lemmas.Algebra
+import EpsicProofs.Lemmas.Stokes
+import EpsicProofs.Props.C03
+import EpsicProofs.Props.C04
+/-! # C02 — Stokes, coherency-matrix, Mueller and spinor pictures of a transformation agree -/
+set_option linter.unusedSectionVars false
+set_option linter.unusedVariables false
 namespace Epsic.C02
+open Epsic Epsic.Pauli
+variable {K : Type} [Field K] [DecidableEq K] [CharZero K]
+
+/-- the only property of the `real_coherency` guard the theorems use: it does not fire when the
+imaginary part vanishes identically (`ni > 1e8·eps` is false for `ni = 0`) -/
+def GuardOK (g : K → K → Bool) : Prop := ∀ nr, g 0 nr = false
+
+/-! ## Hermitian arguments pass the guard -/
+theorem imag_toHermitian_of_hermitian (j : Jones K) (h : j.herm = j) :
+    Quat.imagQ (toHermitian j) = Quat.ofScalar 0 := by
+  have h0 := congrArg Jones.j00 h; have h1 := congrArg Jones.j01 h
+  have h2 := congrArg Jones.j10 h; have h3 := congrArg Jones.j11 h
+  simp only [Jones.herm] at h0 h1 h2 h3
+  have e0 := congrArg Cx.im h0; have e1r := congrArg Cx.re h1; have e1 := congrArg Cx.im h1
+  have e3 := congrArg Cx.im h3
+  simp only [epsic] at e0 e1 e1r e3
+  ext <;> simp only [epsic]
+  · have : j.j00.im = 0 := by linear_combination (-1/2 : K) * e0
+    have : j.j11.im = 0 := by linear_combination (-1/2 : K) * e3
+    simp [*]
+  · have : j.j00.im = 0 := by linear_combination (-1/2 : K) * e0
+    have : j.j11.im = 0 := by linear_combination (-1/2 : K) * e3
+    simp [*]
+  · linear_combination (-1/2 : K) * e1
+  · linear_combination (-1/2 : K) * e1r
+theorem coherency_of_hermitian (g : K → K → Bool) (hg : GuardOK g) (b : Basis K) (j : Jones K)
+    (h : j.herm = j) : coherency g b j = .ok (coherencyQ b (Quat.realQ (toHermitian j))) := by
+  simp only [coherency, realCoherency, imag_toHermitian_of_hermitian j h]
+  have : Quat.normR (Quat.ofScalar (0:K)) = 0 := by simp [epsic]
+  simp [this, hg _]
+theorem convertStokes_hermitian (b : Basis K) (s : Stokes K) : (convertStokes b s).herm = convertStokes b s := by
+  simp only [convertStokes]; exact C03.convertHR_hermitian _
+theorem congruence_hermitian (j rho : Jones K) (h : rho.herm = rho) : (j * rho * j.herm).herm = j * rho * j.herm := by
+  rw [C04.herm_mul, C04.herm_mul, C04.herm_herm, h, C04.mul_assoc']
+
+/-- `transform(S,J)` is defined and equals the congruence `J ρ J†` read back as Stokes parameters -/
+def T (b : Basis K) (s : Stokes K) (j : Jones K) : Stokes K :=
+  coherencyQ b (Quat.realQ (toHermitian (j * convertStokes b s * j.herm)))
+theorem transform_eq (g : K → K → Bool) (hg : GuardOK g) (b : Basis K) (s : Stokes K) (j : Jones K) :
+    transform g b s j = .ok (T b s j) := by
+  simp only [transform, T]
+  exact coherency_of_hermitian g hg b _ (congruence_hermitian _ _ (convertStokes_hermitian b s))
+/-- rows of the Mueller matrix -/
+def M (b : Basis K) (j : Jones K) : Mat 4 4 K := fun r =>
+  coherencyQ b (Quat.realQ (toHermitian (j.herm * convertStokes b (Vec.basis r) * j)))
+theorem mueller_eq (g : K → K → Bool) (hg : GuardOK g) (b : Basis K) (j : Jones K) :
+    mueller g b j = .ok (M b j) := by
+  have hrow : ∀ r : Fin 4, coherency g b (j.herm * convertStokes b (Vec.basis r) * j) = .ok (M b j r) := by
+    intro r
+    have := coherency_of_hermitian g hg b (j.herm * convertStokes b (Vec.basis r) * j.herm.herm)
+      (congruence_hermitian _ _ (convertStokes_hermitian b _))
+    rw [C04.herm_herm] at this; exact this
+  simp only [mueller, hrow, bind, Except.bind, pure, Except.pure]
+  congr 1; funext i; fin_cases i <;> rfl
+def MG (b : Basis K) (j jg : Jones K) : Mat 4 4 K := fun r =>
+  coherencyQ b (Quat.realQ (toHermitian (jg.herm * convertStokes b (Vec.basis r) * j + j.herm * convertStokes b (Vec.basis r) * jg)))
+theorem muellerGrad_eq (g : K → K → Bool) (hg : GuardOK g) (b : Basis K) (j jg : Jones K) :
+    muellerGrad g b j jg = .ok (MG b j jg) := by
+  have hrow : ∀ r : Fin 4, coherency g b (jg.herm * convertStokes b (Vec.basis r) * j + j.herm * convertStokes b (Vec.basis r) * jg)
+      = .ok (MG b j jg r) := by
+    intro r
+    apply coherency_of_hermitian g hg
+    rw [C04.herm_add, C04.herm_mul, C04.herm_mul, C04.herm_mul, C04.herm_mul, C04.herm_herm, C04.herm_herm,
+      convertStokes_hermitian, C04.add_comm', C04.mul_assoc', C04.mul_assoc']
+  simp only [muellerGrad, hrow, bind, Except.bind, pure, Except.pure]
+  congr 1; funext i; fin_cases i <;> rfl
+
+
+/-! ## the named bases: polynomial identities, for all Stokes vectors and all Jones matrices -/
+
+macro "stokes_ring" : tactic =>
+  `(tactic| (funext i; fin_cases i <;> simp [T, M, MG, epsic, Cx.norm_def] <;> ring))
+
+section named
+variable (s : Stokes K) (sc : Stokes (Cx K)) (j j1 j2 gj : Jones K) (t : K)
+
+theorem roundtrip_linear : coherencyQ Basis.linear (Quat.realQ (toHermitian (convertStokes Basis.linear s))) = s := by stokes_ring
+theorem roundtrip_circular : coherencyQ Basis.circular (Quat.realQ (toHermitian (convertStokes Basis.circular s))) = s := by stokes_ring
+theorem trace_linear : (convertStokes Basis.linear s).trace = Cx.ofReal (s 0) := by
+  apply Cx.ext' <;> simp [epsic] <;> ring
+theorem trace_circular : (convertStokes Basis.circular s).trace = Cx.ofReal (s 0) := by
+  apply Cx.ext' <;> simp [epsic] <;> ring
+theorem det_linear : Cx.smul 4 (convertStokes Basis.linear s).det = Cx.ofReal (Stokes.invariant s) := by
+  apply Cx.ext' <;> simp [epsic] <;> ring
+theorem det_circular : Cx.smul 4 (convertStokes Basis.circular s).det = Cx.ofReal (Stokes.invariant s) := by
+  apply Cx.ext' <;> simp [epsic] <;> ring
+
+/-- complex Stokes parameters: round trip, trace, determinant -/
+theorem roundtripC_linear : complexCoherency Basis.linear (convertStokesC Basis.linear sc) = sc := by
+  funext i; fin_cases i <;> apply Cx.ext' <;> simp [epsic] <;> ring
+theorem roundtripC_circular : complexCoherency Basis.circular (convertStokesC Basis.circular sc) = sc := by
+  funext i; fin_cases i <;> apply Cx.ext' <;> simp [epsic] <;> ring
+theorem traceC_linear : (convertStokesC Basis.linear sc).trace = sc 0 := by
+  apply Cx.ext' <;> simp [epsic] <;> ring
+theorem traceC_circular : (convertStokesC Basis.circular sc).trace = sc 0 := by
+  apply Cx.ext' <;> simp [epsic] <;> ring
+theorem detC_linear : Cx.smul 4 (convertStokesC Basis.linear sc).det = sc 0 * sc 0 - sc 1 * sc 1 - sc 2 * sc 2 - sc 3 * sc 3 := by
+  apply Cx.ext' <;> simp [epsic] <;> ring
+theorem detC_circular : Cx.smul 4 (convertStokesC Basis.circular sc).det = sc 0 * sc 0 - sc 1 * sc 1 - sc 2 * sc 2 - sc 3 * sc 3 := by
+  apply Cx.ext' <;> simp [epsic] <;> ring
+
+/-- transforming by `J` is multiplication by the Mueller matrix of `J` -/
+theorem T_eq_mueller_linear : T Basis.linear s j = Mat.mulVec (M Basis.linear j) s := by stokes_ring
+theorem T_eq_mueller_circular : T Basis.circular s j = Mat.mulVec (M Basis.circular j) s := by stokes_ring
+/-- the Lorentz invariant is multiplied by `|det J|²` -/
+theorem invariant_T_linear : Stokes.invariant (T Basis.linear s j) = j.det.norm * Stokes.invariant s := by
+  simp [T, epsic, Cx.norm_def]; ring
+theorem invariant_T_circular : Stokes.invariant (T Basis.circular s j) = j.det.norm * Stokes.invariant s := by
+  simp [T, epsic, Cx.norm_def]; ring
+
+set_option maxHeartbeats 4000000 in
+/-- Mueller matrices compose like their Jones matrices -/
+theorem M_mul_linear : M Basis.linear (j1 * j2) = Mat.mul (M Basis.linear j1) (M Basis.linear j2) := by
+  funext r c; fin_cases r <;> fin_cases c <;> simp [M, epsic] <;> ring
+set_option maxHeartbeats 4000000 in
+theorem M_mul_circular : M Basis.circular (j1 * j2) = Mat.mul (M Basis.circular j1) (M Basis.circular j2) := by
+  funext r c; fin_cases r <;> fin_cases c <;> simp [M, epsic] <;> ring
+set_option maxHeartbeats 4000000 in
+/-- the two-argument Mueller form is the exact directional derivative: an identity in `t` -/
+theorem M_grad_linear (r c : Fin 4) : M Basis.linear (j + Jones.smulR t gj) r c
+    = M Basis.linear j r c + t * MG Basis.linear j gj r c + t*t * M Basis.linear gj r c := by
+  fin_cases r <;> fin_cases c <;> simp [M, MG, epsic] <;> ring
+set_option maxHeartbeats 4000000 in
+theorem M_grad_circular (r c : Fin 4) : M Basis.circular (j + Jones.smulR t gj) r c
+    = M Basis.circular j r c + t * MG Basis.circular j gj r c + t*t * M Basis.circular gj r c := by
+  fin_cases r <;> fin_cases c <;> simp [M, MG, epsic] <;> ring
+end named
+
 end Epsic.C02
